@@ -294,9 +294,6 @@ func checkC01(c *Ctx) {
 			if phi, isPhi := v.(*ssa.Phi); isPhi && phi.Comment != "" {
 				p = "var:" + phi.Comment // the same source variable at different merge points
 			}
-			if strings.Contains(p, "curPkg") && name == "(*transformer).transformLinkname" {
-				continue
-			}
 			if first == "" {
 				first = p
 			} else if p != first {
